@@ -246,6 +246,7 @@ StringDictionaryHASHHF::StringDictionaryHASHHF(IteratorDictString *it, uint len,
     builder->insertEndingSubstr(&codeSubstr, &ptrSubstr, &textSubstr,
                                 &lenSubstr);
 
+  textStrings[bytesStrings] = 0;
   bytesStrings++;
 
   table = builder->getTable();
